@@ -10,50 +10,63 @@ theorem acceptStep_res (S : Spec) (st : AS) (pid : Nat) (o : Op) (r r' : Bool) :
     acceptStep S st ⟨pid, o, r⟩ = acceptStep S st ⟨pid, o, r'⟩ := by
   cases o <;> rfl
 
-/-- all traces of the program from discipline state `st` are accepted, and when the program returns `a`
-    in state `st'` then `Q a st'` -/
-def Safe (S : Spec) (pid : Nat) {α : Type} : Prog α → AS → (α → AS → Prop) → Prop
+/-- all traces of the program from discipline state `st` are accepted, every file name it asks a compiler
+    to produce satisfies `P`, and when the program returns `a` in state `st'` then `Q a st'` -/
+def Safe (S : Spec) (pid : Nat) (P : Path → Prop) {α : Type} : Prog α → AS → (α → AS → Prop) → Prop
   | .ret a, st, Q => Q a st
   | .fail, _, _ => True
-  | .act o k, st, Q => ∃ st', acceptStep S st ⟨pid, o, true⟩ = some st' ∧ ∀ r, Safe S pid (k r) st' Q
+  | .act o k, st, Q => (∀ x ∈ execOutsOf o, P x) ∧
+      ∃ st', acceptStep S st ⟨pid, o, true⟩ = some st' ∧ ∀ r, Safe S pid P (k r) st' Q
 
-theorem safe_bind {S : Spec} {pid : Nat} {α β : Type} (m : Prog α) (f : α → Prog β) (st : AS)
+theorem safe_bind {S : Spec} {pid : Nat} {P : Path → Prop} {α β : Type} (m : Prog α) (f : α → Prog β) (st : AS)
     (Q : α → AS → Prop) (R : β → AS → Prop)
-    (hm : Safe S pid m st Q) (hf : ∀ a st', Q a st' → Safe S pid (f a) st' R) :
-    Safe S pid (m >>= f) st R := by
+    (hm : Safe S pid P m st Q) (hf : ∀ a st', Q a st' → Safe S pid P (f a) st' R) :
+    Safe S pid P (m >>= f) st R := by
   induction m generalizing st with
   | ret a => exact hf a st hm
   | fail => trivial
   | act o k ih =>
-    obtain ⟨st', h1, h2⟩ := hm
-    exact ⟨st', h1, fun r => ih r st' (h2 r)⟩
+    obtain ⟨hP, st', h1, h2⟩ := hm
+    exact ⟨hP, st', h1, fun r => ih r st' (h2 r)⟩
 
-theorem safe_mono {S : Spec} {pid : Nat} {α : Type} (m : Prog α) (st : AS) (Q R : α → AS → Prop)
-    (hm : Safe S pid m st Q) (h : ∀ a st', Q a st' → R a st') : Safe S pid m st R := by
+theorem safe_mono {S : Spec} {pid : Nat} {P : Path → Prop} {α : Type} (m : Prog α) (st : AS) (Q R : α → AS → Prop)
+    (hm : Safe S pid P m st Q) (h : ∀ a st', Q a st' → R a st') : Safe S pid P m st R := by
   induction m generalizing st with
   | ret a => exact h a st hm
   | fail => trivial
   | act o k ih =>
-    obtain ⟨st', h1, h2⟩ := hm
-    exact ⟨st', h1, fun r => ih r st' (h2 r)⟩
+    obtain ⟨hP, st', h1, h2⟩ := hm
+    exact ⟨hP, st', h1, fun r => ih r st' (h2 r)⟩
 
-theorem safe_trace {S : Spec} {pid : Nat} {α : Type} (m : Prog α) (st : AS) (Q : α → AS → Prop)
-    (hm : Safe S pid m st Q) (t : Trace) (ht : IsTrace pid m t) : (acceptsFrom S st t).isSome = true := by
+theorem safe_trace {S : Spec} {pid : Nat} {P : Path → Prop} {α : Type} (m : Prog α) (st : AS) (Q : α → AS → Prop)
+    (hm : Safe S pid P m st Q) (t : Trace) (ht : IsTrace pid m t) : (acceptsFrom S st t).isSome = true := by
   induction ht generalizing st with
   | nil m => simp [acceptsFrom]
   | act o k r t _ ih =>
-    obtain ⟨st', h1, h2⟩ := hm
+    obtain ⟨_, st', h1, h2⟩ := hm
     simp only [acceptsFrom]
     rw [acceptStep_res S st pid o r true, h1]
     exact ih st' (h2 r)
 
 
+theorem safe_outs {S : Spec} {pid : Nat} {P : Path → Prop} {α : Type} (m : Prog α) (st : AS) (Q : α → AS → Prop)
+    (hm : Safe S pid P m st Q) (t : Trace) (ht : IsTrace pid m t) : ∀ e ∈ t, ∀ x ∈ execOutsOf e.op, P x := by
+  induction ht generalizing st with
+  | nil m => intro e he; cases he
+  | act o k r t _ ih =>
+    obtain ⟨hP, st', _, h2⟩ := hm
+    intro e he
+    rcases List.mem_cons.1 he with rfl | he'
+    · exact hP
+    · exact ih st' (h2 r) e he'
+
 /-! ### acceptance of the single steps -/
 section steps
-variable {S : Spec} {pid : Nat} {st : AS}
+variable {S : Spec} {pid : Nat} {P : Path → Prop} {st : AS}
 
-theorem safe_op {o : Op} {st' : AS} (h : acceptStep S st ⟨pid, o, true⟩ = some st') :
-    Safe S pid (op o) st (fun _ s => s = st') := ⟨st', h, fun _ => rfl⟩
+theorem safe_op {o : Op} {st' : AS} (h : acceptStep S st ⟨pid, o, true⟩ = some st')
+    (hP : ∀ x ∈ execOutsOf o, P x := by simp [execOutsOf]) :
+    Safe S pid P (op o) st (fun _ s => s = st') := ⟨hP, st', h, fun _ => rfl⟩
 
 theorem acc_stat {p : Path} (hp : p.tmp = none) : acceptStep S st ⟨pid, .stat p, true⟩ = some st := by
   simp [acceptStep, Path.isTemp, hp]
@@ -102,7 +115,7 @@ end steps
 
 /-! ### the procedures -/
 section procs
-variable {S : Spec} {pid : Nat}
+variable {S : Spec} {pid : Nat} {P : Path → Prop}
 
 theorem withTok_isTemp (p : Path) (tok : String) : (p.withTok tok).isTemp = true := rfl
 theorem withTok_final (p : Path) (tok : String) (hp : p.tmp = none) : (p.withTok tok).final = p := by
@@ -110,36 +123,36 @@ theorem withTok_final (p : Path) (tok : String) (hp : p.tmp = none) : (p.withTok
 theorem withTok_dir (p : Path) (tok : String) : (p.withTok tok).dir = p.dir := rfl
 
 theorem safe_ioExists (st : AS) {p : Path} (hp : p.tmp = none) :
-    Safe S pid (ioExists p) st (fun _ s => s = st) := safe_op (acc_openRead hp)
+    Safe S pid P (ioExists p) st (fun _ s => s = st) := safe_op (acc_openRead hp)
 theorem safe_isFile (st : AS) {p : Path} (hp : p.tmp = none) :
-    Safe S pid (isFile p) st (fun _ s => s = st) := safe_op (acc_stat hp)
+    Safe S pid P (isFile p) st (fun _ s => s = st) := safe_op (acc_stat hp)
 
 theorem safe_readFile (st : AS) {p : Path} (hp : p.tmp = none) :
-    Safe S pid (readFile p) st (fun _ s => s = st) := by
-  refine ⟨st, acc_openRead hp, fun r => ?_⟩
+    Safe S pid P (readFile p) st (fun _ s => s = st) := by
+  refine ⟨by simp [execOutsOf], st, acc_openRead hp, fun r => ?_⟩
   cases r
   · trivial
-  · exact ⟨st, acc_stat hp, fun _ => rfl⟩
+  · exact ⟨by simp [execOutsOf], st, acc_stat hp, fun _ => rfl⟩
 
-theorem safe_mkpath (st : AS) (d : String) : Safe S pid (mkpath d) st (fun _ s => s = st) := by
-  refine ⟨st, acc_statDir, fun r => ?_⟩
+theorem safe_mkpath (st : AS) (d : String) : Safe S pid P (mkpath d) st (fun _ s => s = st) := by
+  refine ⟨by simp [execOutsOf], st, acc_statDir, fun r => ?_⟩
   cases r
-  · exact ⟨st, acc_mkdir, fun _ => rfl⟩
+  · exact ⟨by simp [execOutsOf], st, acc_mkdir, fun _ => rfl⟩
   · rfl
 
 theorem safe_sync_final (st : AS) {p : Path} (hp : p.tmp = none) :
-    Safe S pid (sync p) st (fun _ s => s = st) :=
-  ⟨st, acc_openRead hp, fun _ => ⟨st, acc_fsync hp, fun _ => ⟨st, acc_fsyncDir, fun _ => rfl⟩⟩⟩
+    Safe S pid P (sync p) st (fun _ s => s = st) :=
+  ⟨by simp [execOutsOf], st, acc_openRead hp, fun _ => ⟨by simp [execOutsOf], st, acc_fsync hp, fun _ => ⟨by simp [execOutsOf], st, acc_fsyncDir, fun _ => rfl⟩⟩⟩
 
 theorem safe_sync_closed (st : AS) {p : Path} {bs : Bytes} (h : st p = some (pid, .closedW bs)) :
-    Safe S pid (sync p) st (fun _ s => s = st) :=
-  ⟨st, acc_openRead_closed h, fun _ => ⟨st, acc_fsync_closed h, fun _ => ⟨st, acc_fsyncDir, fun _ => rfl⟩⟩⟩
+    Safe S pid P (sync p) st (fun _ s => s = st) :=
+  ⟨by simp [execOutsOf], st, acc_openRead_closed h, fun _ => ⟨by simp [execOutsOf], st, acc_fsync_closed h, fun _ => ⟨by simp [execOutsOf], st, acc_fsyncDir, fun _ => rfl⟩⟩⟩
 
 theorem AS.set_set (st : AS) (p : Path) (v w : Nat × TS) : (st.set p v).set p w = st.set p w := by
   funext q; simp only [AS.set]; split <;> rfl
 
 theorem safe_ioWrite (st : AS) {t : Path} (c : Bytes) (ht : t.isTemp = true) (hn : st t = none) :
-    Safe S pid (ioWrite t c) st (fun _ s => s = st.set t (pid, .closedW c)) := by
+    Safe S pid P (ioWrite t c) st (fun _ s => s = st.set t (pid, .closedW c)) := by
   unfold ioWrite
   refine safe_bind _ _ _ _ _ (safe_mkpath st t.dir) ?_
   intro _ s hs; subst s
@@ -184,18 +197,18 @@ theorem OnlyAt.left {a b : AS} {t1 t2 : Path} (h : OnlyAt a b t1) : OnlyAt2 a b 
 theorem OnlyAt.right {a b : AS} {t1 t2 : Path} (h : OnlyAt a b t2) : OnlyAt2 a b t1 t2 := fun q _ h2 => h q h2
 
 theorem safe_moveStaged (st : AS) {t p : Path} (ht : t.isTemp = true) (hp : p.tmp = none) (hf : t.final = p)
-    (hm : Movable S pid st t p) : Safe S pid (moveStaged t p) st (fun _ s => OnlyAt st s t) := by
+    (hm : Movable S pid st t p) : Safe S pid P (moveStaged t p) st (fun _ s => OnlyAt st s t) := by
   have hown : ∃ ts, st t = some (pid, ts) := by
     rcases hm with ⟨bs, h, _⟩ | h
     · exact ⟨_, h⟩
     · exact ⟨_, h⟩
   obtain ⟨ts, hts⟩ := hown
-  refine ⟨st, acc_stat_own hts, fun e => ?_⟩
+  refine ⟨by simp [execOutsOf], st, acc_stat_own hts, fun e => ?_⟩
   cases e
   · exact OnlyAt.refl st t
-  · refine ⟨_, acc_rename ht hp hf hm, fun ok => ?_⟩
+  · refine ⟨by simp [execOutsOf], _, acc_rename ht hp hf hm, fun ok => ?_⟩
     cases ok
-    · refine ⟨_, acc_stat hp, fun e2 => ?_⟩
+    · refine ⟨by simp [execOutsOf], _, acc_stat hp, fun e2 => ?_⟩
       cases e2
       · trivial
       · exact OnlyAt.set st t _
@@ -203,9 +216,9 @@ theorem safe_moveStaged (st : AS) {t p : Path} (ht : t.isTemp = true) (hp : p.tm
 
 theorem safe_stageFile (st : AS) (p : Path) (tok : String) (skip : Bool) (prod : Path → Prog Bool)
     (hp : p.tmp = none)
-    (hprod : Safe S pid (prod (p.withTok tok)) st
+    (hprod : Safe S pid P (prod (p.withTok tok)) st
       (fun ok s => OnlyAt st s (p.withTok tok) ∧ (ok = true → Movable S pid s (p.withTok tok) p))) :
-    Safe S pid (stageFile p tok skip prod) st (fun _ s => OnlyAt st s (p.withTok tok)) := by
+    Safe S pid P (stageFile p tok skip prod) st (fun _ s => OnlyAt st s (p.withTok tok)) := by
   unfold stageFile
   refine safe_bind _ _ _ _ _ (safe_mkpath st p.dir) ?_
   intro _ s hs; subst s
@@ -230,10 +243,10 @@ theorem Movable.of_eq {st s : AS} {t p : Path} (h : s t = st t) (hm : Movable S 
 theorem safe_stageFiles2 (st : AS) (p1 : Path) (tok1 : String) (p2 : Path) (tok2 : String) (skip : Bool)
     (prod : Path → Path → Prog Bool) (hp1 : p1.tmp = none) (hp2 : p2.tmp = none)
     (hne : p1.withTok tok1 ≠ p2.withTok tok2)
-    (hprod : Safe S pid (prod (p1.withTok tok1) (p2.withTok tok2)) st
+    (hprod : Safe S pid P (prod (p1.withTok tok1) (p2.withTok tok2)) st
       (fun ok s => OnlyAt2 st s (p1.withTok tok1) (p2.withTok tok2) ∧
         (ok = true → Movable S pid s (p1.withTok tok1) p1 ∧ Movable S pid s (p2.withTok tok2) p2))) :
-    Safe S pid (stageFiles2 p1 tok1 p2 tok2 skip prod) st
+    Safe S pid P (stageFiles2 p1 tok1 p2 tok2 skip prod) st
       (fun _ s => OnlyAt2 st s (p1.withTok tok1) (p2.withTok tok2)) := by
   unfold stageFiles2
   refine safe_bind _ _ _ _ _ (safe_mkpath st p1.dir) ?_
@@ -263,7 +276,7 @@ theorem safe_stageFiles2 (st : AS) (p1 : Path) (tok1 : String) (p2 : Path) (tok2
 
 theorem safe_writeProducer (st : AS) (p : Path) (tok : String) (c : Bytes) (hv : S.valid p c = true)
     (hn : st (p.withTok tok) = none) :
-    Safe S pid (writeProducer c (p.withTok tok)) st
+    Safe S pid P (writeProducer c (p.withTok tok)) st
       (fun ok s => OnlyAt st s (p.withTok tok) ∧ (ok = true → Movable S pid s (p.withTok tok) p)) := by
   unfold writeProducer
   refine safe_bind _ _ _ _ _ (safe_ioWrite st c (withTok_isTemp p tok) hn) ?_
@@ -290,6 +303,9 @@ structure CfgOK (S : Spec) (c : Config) : Prop where
   r_vbin : S.recipe (c.v "binary") = some "findCompilerVendor.cpp"
   r_vlog : S.recipe (c.v "build.log") = some "findCompilerVendor.cpp"
   r_obin : S.recipe (c.o "binary") = some "compilerSupportsOpenMP.cpp"
+
+/-- a temp name made from one of the configuration's tokens -/
+def IsTok (c : Config) (x : Path) : Prop := ∃ i, x.tmp = some (c.toks i)
 
 /-- no temp name with a token of call site `n` or later has been used -/
 def FreshFrom (c : Config) (st : AS) (n : Nat) : Prop := ∀ q i, q.tmp = some (c.toks i) → n ≤ i → st q = none
@@ -342,12 +358,12 @@ theorem o_final (b : String) : (c.o b).tmp = none := rfl
 /-- a staged write at call site `n` -/
 theorem safe_stageWrite (hc : CfgOK S c) (st : AS) (n : Nat) (p : Path) (skip : Bool) (content : Bytes)
     (hp : p.tmp = none) (hv : S.valid p content = true) (hf : FreshFrom c st n) :
-    Safe S pid (stageFile p (c.toks n) skip (writeProducer content)) st (fun _ s => FreshFrom c s (n + 1)) := by
+    Safe S pid P (stageFile p (c.toks n) skip (writeProducer content)) st (fun _ s => FreshFrom c s (n + 1)) := by
   refine safe_mono _ _ _ _ (safe_stageFile st p _ skip _ hp (safe_writeProducer st p _ content hv (hf.at p n (Nat.le_refl _)))) ?_
   intro _ s ho
   exact hf.step hc.toks_inj p n (n + 1) (Nat.lt_succ_self _) (Nat.le_succ _) ho
 
-theorem safe_applyDependencyHash (st : AS) : Safe S pid (applyDependencyHash c) st (fun _ s => s = st) := by
+theorem safe_applyDependencyHash (st : AS) : Safe S pid P (applyDependencyHash c) st (fun _ s => s = st) := by
   unfold applyDependencyHash
   refine safe_bind _ _ _ _ _ (safe_ioExists st (k_final _)) ?_
   intro e s hs; subst s
@@ -358,7 +374,7 @@ theorem safe_applyDependencyHash (st : AS) : Safe S pid (applyDependencyHash c) 
 theorem safe_cacheFile (hc : CfgOK S c) (st : AS) (n : Nat) (dst : Path) (content : Bytes) (src : Option Path)
     (hp : dst.tmp = none) (hv : S.valid dst content = true) (hsrc : ∀ s, src = some s → s.tmp = none)
     (hf : FreshFrom c st n) :
-    Safe S pid (cacheFile dst (c.toks n) content src) st (fun _ s => FreshFrom c s (n + 1)) := by
+    Safe S pid P (cacheFile dst (c.toks n) content src) st (fun _ s => FreshFrom c s (n + 1)) := by
   unfold cacheFile
   refine safe_bind _ _ _ _ _ (safe_isFile st hp) ?_
   intro e s hs; subst s
@@ -388,7 +404,7 @@ theorem acc_exec2 {st : AS} {src t1 t2 : Path} (hs : src.tmp = none) (ht1 : t1.i
 
 
 theorem safe_compilerVendor (hc : CfgOK S c) (st : AS) (n : Nat) (hf : FreshFrom c st n) :
-    Safe S pid (compilerVendor c n) st (fun _ s => FreshFrom c s (n + 4)) := by
+    Safe S pid (IsTok c) (compilerVendor c n) st (fun _ s => FreshFrom c s (n + 4)) := by
   unfold compilerVendor
   refine safe_bind _ _ _ _ _ (safe_cacheFile hc st n _ c.vsrc none (v_final _) hc.v_vsrc (by intro s h; cases h) hf) ?_
   intro _ s1 hf1
@@ -414,7 +430,7 @@ theorem safe_compilerVendor (hc : CfgOK S c) (st : AS) (n : Nat) (hf : FreshFrom
           (v_final _) rfl rfl hn1 hn2 hne.symm rfl rfl
           (by rw [withTok_final _ _ (v_final _)]; exact hc.r_vbin)
           (by rw [withTok_final _ _ (v_final _)]; exact hc.r_vlog)
-        refine safe_bind _ _ _ _ _ (safe_op hacc) ?_
+        refine safe_bind _ _ _ _ _ (safe_op hacc (by intro x hx; simp only [execOutsOf, List.mem_cons, List.mem_nil_iff, or_false] at hx; rcases hx with rfl | rfl <;> exact ⟨_, rfl⟩)) ?_
         intro _ s hs; subst s
         have hb : ((s1.set ((c.v "binary").withTok (c.toks (n + 1))) (pid, .compiled)).set
             ((c.v "build.log").withTok (c.toks (n + 2))) (pid, .compiled)) ((c.v "binary").withTok (c.toks (n + 1)))
@@ -439,7 +455,7 @@ theorem safe_compilerVendor (hc : CfgOK S c) (st : AS) (n : Nat) (hf : FreshFrom
     exact hf1.mono (by omega)
 
 theorem safe_ompCompilerFlag (hc : CfgOK S c) (st : AS) (n : Nat) (hf : FreshFrom c st n) :
-    Safe S pid (ompCompilerFlag c n) st (fun _ s => FreshFrom c s (n + 3)) := by
+    Safe S pid (IsTok c) (ompCompilerFlag c n) st (fun _ s => FreshFrom c s (n + 3)) := by
   unfold ompCompilerFlag
   refine safe_bind _ _ _ _ _ (safe_cacheFile hc st n _ c.osrc none (o_final _) hc.v_osrc (by intro s h; cases h) hf) ?_
   intro _ s1 hf1
@@ -452,7 +468,7 @@ theorem safe_ompCompilerFlag (hc : CfgOK S c) (st : AS) (n : Nat) (hf : FreshFro
     · have hacc := acc_exec1 (S := S) (pid := pid) (st := s1) (src := c.o "compilerSupportsOpenMP.cpp")
         (t := (c.o "binary").withTok (c.toks (n + 1))) (o_final _) rfl hn1 rfl
         (by rw [withTok_final _ _ (o_final _)]; exact hc.r_obin)
-      refine safe_bind _ _ _ _ _ (safe_op hacc) ?_
+      refine safe_bind _ _ _ _ _ (safe_op hacc (by intro x hx; simp only [execOutsOf, List.mem_cons, List.mem_nil_iff, or_false] at hx; subst hx; exact ⟨_, rfl⟩)) ?_
       intro ok s hs; subst s
       have hn2' : (s1.set ((c.o "binary").withTok (c.toks (n + 1))) (pid, .compiled)) ((c.o "output").withTok (c.toks (n + 2))) = none := by
         rw [AS.set_ne _ _ _ _ hne.symm]; exact hn2
@@ -472,7 +488,7 @@ theorem safe_ompCompilerFlag (hc : CfgOK S c) (st : AS) (n : Nat) (hf : FreshFro
     intro _ s hs; subst s
     exact hf2
 
-theorem safe_loadCached (st : AS) : Safe S pid (loadCached c) st (fun _ s => s = st) := by
+theorem safe_loadCached (st : AS) : Safe S pid P (loadCached c) st (fun _ s => s = st) := by
   unfold loadCached
   refine safe_bind _ _ _ _ _ (safe_isFile st (k_final _)) ?_
   intro e s hs; subst s
@@ -493,7 +509,7 @@ theorem safe_loadCached (st : AS) : Safe S pid (loadCached c) st (fun _ s => s =
     · rfl
 
 theorem safe_serialBuild (hc : CfgOK S c) (st : AS) (n : Nat) (hf : FreshFrom c st n) :
-    Safe S pid (serialBuild c n) st (fun _ _ => True) := by
+    Safe S pid (IsTok c) (serialBuild c n) st (fun _ _ => True) := by
   unfold serialBuild
   refine safe_bind _ _ _ _ _ (safe_isFile st (k_final _)) ?_
   intro found s hs; subst s
@@ -521,7 +537,7 @@ theorem safe_serialBuild (hc : CfgOK S c) (st : AS) (n : Nat) (hf : FreshFrom c 
         have hacc := acc_exec1 (S := S) (pid := pid) (st := s4) (src := c.k c.cppBase)
           (t := (c.k "binary").withTok (c.toks (n + 7))) (k_final _) rfl hn rfl
           (by rw [withTok_final _ _ (k_final _)]; exact hc.r_kbin)
-        refine safe_bind _ _ _ _ _ (safe_op hacc) ?_
+        refine safe_bind _ _ _ _ _ (safe_op hacc (by intro x hx; simp only [execOutsOf, List.mem_cons, List.mem_nil_iff, or_false] at hx; subst hx; exact ⟨_, rfl⟩)) ?_
         intro ok s hs; subst s
         cases ok
         · trivial
@@ -543,7 +559,7 @@ theorem safe_serialBuild (hc : CfgOK S c) (st : AS) (n : Nat) (hf : FreshFrom c 
 
 theorem FreshFrom_empty (c : Config) (n : Nat) : FreshFrom c AS.empty n := fun _ _ _ _ => rfl
 
-theorem safe_buildProg (hc : CfgOK S c) : Safe S pid (buildProg c) AS.empty (fun _ _ => True) := by
+theorem safe_buildProg (hc : CfgOK S c) : Safe S pid (IsTok c) (buildProg c) AS.empty (fun _ _ => True) := by
   unfold buildProg
   refine safe_bind _ _ _ _ _ (safe_applyDependencyHash AS.empty) ?_
   intro _ s hs; subst s
